@@ -17,6 +17,11 @@ pub enum Act {
     Tick(u64),
     /// advance to (deadline of key) + delta ns; no-op if the key has no deadline or the target is in the past
     TickRel { key: Bytes, delta_ns: i64 },
+    /// advance to the sweeper's next wake-up and let it run until it parks between its collect phase and
+    /// its delete phase (SWEEP_BETWEEN); if it collected nothing the pass simply completes
+    SweepOpen,
+    /// let a parked sweeper finish its pass
+    SweepClose,
 }
 
 pub fn cmd(parts: &[&str]) -> Act {
@@ -70,6 +75,8 @@ fn describe_act(a: &Act) -> String {
         Act::Cmd(args) => resp::show_cmd(args),
         Act::Tick(ns) => format!("tick +{}ms", ns / 1_000_000),
         Act::TickRel { key, delta_ns } => format!("tick to deadline({}){:+}ms", resp::show_bytes(key), delta_ns / 1_000_000),
+        Act::SweepOpen => "sweeper: run to the window between collect and delete".into(),
+        Act::SweepClose => "sweeper: finish the pass".into(),
     }
 }
 
@@ -192,7 +199,7 @@ impl DataWorld {
         for db in 0..16usize {
             let model_keys: Vec<Bytes> = {
                 let now = self.model.now;
-                self.model.dbs[db].keys.iter().filter(|(_, e)| e.deadline.map(|d| now < d).unwrap_or(true)).map(|(k, _)| k.clone()).collect()
+                self.model.dbs[db].keys.iter().filter(|(_, e)| e.deadline.map(|d| now <= d).unwrap_or(true)).map(|(k, _)| k.clone()).collect()
             };
             // only look at databases that hold something in the model or in the implementation
             let raw = srv.h.storage.verif_raw_dump(db, 0);
@@ -293,6 +300,12 @@ impl World for DataWorld {
     }
 
     fn reset(&mut self) -> Result<(), String> {
+        // a sweeper left parked by the previous history must finish first
+        crate::gate::set_park_points(&[]);
+        if !crate::gate::parked().is_empty() {
+            crate::gate::release_all();
+            vtime::settle().map_err(|_| "settle timeout releasing a parked sweeper".to_string())?;
+        }
         self.ensure()?;
         self.hist.clear();
         {
@@ -342,6 +355,26 @@ impl World for DataWorld {
                 vtime::tick(ns).map_err(|_| "settle timeout during tick".to_string())?;
                 self.model.set_clock();
                 Ok(StepOut { ok: true, dev: None, obs: format!("tick {}ms", ns / 1_000_000) })
+            }
+            Act::SweepOpen => {
+                crate::gate::set_park_points(&[ferrous::verif_hooks::SWEEP_BETWEEN]);
+                let opened = match vtime::next_wake() {
+                    Some(w) => {
+                        vtime::advance_to(w).map_err(|_| "settle timeout opening the sweeper window".to_string())?;
+                        !crate::gate::parked().is_empty()
+                    }
+                    None => false,
+                };
+                self.model.set_clock();
+                Ok(StepOut { ok: true, dev: None, obs: format!("sweep-open:{}", opened) })
+            }
+            Act::SweepClose => {
+                crate::gate::set_park_points(&[]);
+                let was = !crate::gate::parked().is_empty();
+                crate::gate::release_all();
+                vtime::settle().map_err(|_| "settle timeout closing the sweeper window".to_string())?;
+                self.model.set_clock();
+                Ok(StepOut { ok: true, dev: None, obs: format!("sweep-close:{}", was) })
             }
             Act::TickRel { key, delta_ns } => {
                 self.model.set_clock();
